@@ -424,10 +424,18 @@ impl Sim {
                 false
             }
             RealOut::Panic(m) => {
-                let mut props = vec!["C01", "C14", "C17"];
-                props.extend_from_slice(extra_props);
-                self.v(&props, "panic", format!("{}: the simulator panicked: {}", what, m));
-                return false;
+                if self.model.panicked && m.contains("scripted contract panic") {
+                    // the injected crash inside contract code: it unwinds through the simulator; what follows
+                    // checks that nothing of the call is left behind
+                    self.dig.write_str("panic");
+                    self.stats.probe("contract_crash_unwound");
+                    false
+                } else {
+                    let mut props = vec!["C01", "C14", "C17"];
+                    props.extend_from_slice(extra_props);
+                    self.v(&props, "panic", format!("{}: the simulator panicked: {}", what, m));
+                    return false;
+                }
             }
         };
         // ---- trace (who ran, in which order, with what)
